@@ -164,7 +164,7 @@ def catalogOf (a : ASide) : List Bytes :=
 def render (a : ASide) : Side :=
   let blank : Side := List.replicate 1280 (List.replicate 256 a.filler)
   let sd := a.files.foldl (fun sd f => (fileSectors a.filler f).foldl (fun sd p => sd.set p.1 p.2) sd) blank
-  let sd := sd.set (20 * 16 + 1) ([a.byte0] ++ tableOf a ++ List.replicate 95 a.tableTail)
+  let sd := sd.set (20 * 16 + 1) ([a.byte0] ++ tableOf a ++ (List.range 95).map fun i => (a.tableTail * (i + 1)) % 256)
   let cat := catalogOf a
   (List.range 14).foldl (fun sd k => sd.set (20 * 16 + 2 + k) (((cat.drop (8 * k)).take 8).flatten)) sd
 
